@@ -299,7 +299,13 @@ impl Ctx {
                 }
                 let out = match guarded(run) {
                     Ok(o) => o,
-                    Err(sig) => Outcome::violation(format!("crash/{}", sig), "panic while running okane on this input"),
+                    Err(sig) => {
+                        if sig.contains("harness bug") {
+                            eprintln!("MACHINERY-ERROR: {} (case {}):\n{}", sig, idx, desc());
+                            std::process::exit(3);
+                        }
+                        Outcome::violation(format!("crash/{}", sig), "panic while running okane on this input")
+                    }
                 };
                 self.record(idx, out, desc);
             }
